@@ -821,7 +821,7 @@ def run(ctx):
     wd = C.scratch('c07.')
     rng = ctx.rng
     thorough = ctx.tier == 'thorough'
-    dist = dict(ops={}, rc={}, hsizes={}, nprocs={}, fmt={}, name_len_max=0, utf8_names=0, colliding_pairs=0,
+    dist = dict(ops={}, rc={}, hsizes={}, nprocs={}, fmt={}, name_len_max=0, utf8_names=0, max_bucket_occupancy={},
                 datamode_updates_ok=0, ok_modifications=0, histories=0, batched_small_histories=0,
                 hash_points=0, reopen_dumps_compared=0, snapshots_compared=0)
 
@@ -911,10 +911,8 @@ def run(ctx):
 
     # ---- (4) exhaustive short histories over 3 colliding names
     init_small_names()
-    plans = [('att', 3, True), ('dim', 3, True), ('var', 3, True)] if thorough else \
-            [('att', 2, True), ('dim', 2, True), ('var', 2, False)]
-    if thorough:
-        plans += [('att', 4, False), ('dim', 4, False)]
+    plans = [('att', 4, True), ('dim', 4, True), ('var', 4, False)] if thorough else \
+            [('att', 3, True), ('dim', 3, False), ('var', 2, False)]
     batches = []
     for kind, depth, tog in plans:
         cur = []
@@ -940,7 +938,7 @@ def run(ctx):
                        'from {none,1,2,3,4,5,6,8,16,64,256,negative}; name pool of 6-14 names searched so that most share one '
                        'bucket of the largest table under the model\'s own hash, lengths up to 256 and beyond, UTF-8 '
                        'composed/decomposed pairs, illegal names; every return code, id, inquiry dump, lookup and on-disk '
-                       'header compared with the extracted Coq model; plus all histories of <= 2 (quick) / 3-4 (thorough) ops '
+                       'header compared with the extracted Coq model; plus all histories of <= 2-3 (quick) / <= 4 (thorough) ops '
                        'over 3 colliding names for attributes, dimensions, variables. Non-trivial = at least one successful '
                        'rename/delete/overwrite/copy after a successful definition (from the library\'s own return codes).')
     ctx.cov['distribution'] = dist
@@ -976,6 +974,19 @@ def account(ctx, dist, h, r):
         dist['rc'][str(rc)] = dist['rc'].get(str(rc), 0) + 1
         if rc == 0 and k in MODIFY: okmod += 1
         if rc == 0 and k in ('def_dim', 'def_var', 'put_att'): okdef += 1
+    # collisions under the model's own hash: largest bucket among the names this history uses, per table size
+    names = {nfc_tab(x) for o in ops for x in o if isinstance(x, bytes) and 0 < len(x) <= 256}
+    for o in ops:
+        if o[0] == 'create':
+            for v, key in zip(o[3], ('dim', 'var', 'gatt', 'vatt')):
+                hsz = eff_size(v, DEFAULTS[key])
+                occ = {}
+                for n in names:
+                    k = bernstein(n, hsz); occ[k] = occ.get(k, 0) + 1
+                mo = max(occ.values()) if occ else 0
+                cur = dist['max_bucket_occupancy'].setdefault(str(hsz), [0, 0])
+                cur[0] = max(cur[0], mo); cur[1] += 1 if mo >= 3 else 0
+            break
     dist['ok_modifications'] += okmod
     dist['datamode_updates_ok'] += r.get('datamode_ok', 0)
     dist['snapshots_compared'] += sum(1 for o in ops if o[0] == 'snapshot')
